@@ -393,7 +393,7 @@ def run(ctx):
                 R.one({'rotating': True, 'maxbytes': mb, 'backups': N}, [('write', pay.take(s)) for s in sizes])
                 ctx.count('exhaustive')
     for mix, share in (('w', 2), ('wr', 2), ('wrc', 3), ('ext', 3)):
-        for _ in range(ctx.n(40, 900) * share // 2):
+        for _ in range(ctx.n(120, 2500) * share // 2):
             cfg, ops = gen_case(rng, mix)
             R.one(cfg, ops)
             ctx.count('mix:' + mix)
